@@ -595,13 +595,17 @@ impl<'de> Visitor<'de> for IDLValueVisitor {
         use serde::de::VariantAccess;
         let (variant, visitor) = data.variant::<IDLValue>()?;
         if let IDLValue::Text(v) = variant {
-            let v: Vec<_> = v.split(',').collect();
-            let (id, style) = match v.as_slice() {
-                [name, "name", style] => (Label::Named(name.to_string()), style),
-                [hash, "id", style] => (Label::Id(hash.parse::<u32>().unwrap()), style),
+            // The deserializer appends ",name|id,<style>" to the label; the label itself may contain commas.
+            let mut parts = v.rsplitn(3, ',');
+            let (style, kind, label) = (parts.next(), parts.next(), parts.next());
+            let (id, style) = match (label, kind, style) {
+                (Some(name), Some("name"), Some(style)) => (Label::Named(name.to_string()), style),
+                (Some(hash), Some("id"), Some(style)) => {
+                    (Label::Id(hash.parse::<u32>().map_err(de::Error::custom)?), style)
+                }
                 _ => unreachable!(),
             };
-            let val = match *style {
+            let val = match style {
                 "unit" => {
                     visitor.unit_variant()?;
                     IDLValue::Null
